@@ -169,6 +169,8 @@ def c05_files(rng, tiny_f64: bool) -> typing.Dict[str, str]:
         # a nested delimited type without slack (body maximum = extent): a value of maximal size fills the nested buffer exactly
         'nsa/c05/DelimTight.1.0.dsdl': 'uint8[<=5] x\n@extent 48\n',
         'nsa/c05/OuterTight.1.0.dsdl': 'uint8 a\nnsa.c05.DelimTight.1.0 d\nnsa.c05.DelimTight.1.0[<=2] ds\n@sealed\n',
+        # two-digit version numbers
+        'nsa/c05/V.12.34.dsdl': 'uint8 K = 1\nuint8 x\n@sealed\n',
         # unions with 2 and with many options
         'nsa/c05/U2.1.0.dsdl': '@union\nuint8 a\nuint16 b\n@sealed\n',
         'nsa/c05/UMany.1.0.dsdl': '@union\n' + ''.join('uint%d o%d\n' % (1 + (i * 7) % 64, i) for i in range(many)) + '@extent %d\n' % (8 * 16),
@@ -258,6 +260,7 @@ def pydsdl_expected(c: dict) -> typing.Dict[str, typing.Any]:
 
 
 OPERAND_ROUNDING = 'F-FLOAT-OPERAND-ROUNDING'
+MACRO_CLASH = 'F-C-MACRO-CLASH'
 
 
 def const_ok(kt: dict, value: str, got: str, target: str, mc: typing.Optional[dict] = None) -> typing.Tuple[bool, str, str]:
@@ -829,6 +832,10 @@ def main(chk: core.Check, replay: typing.Optional[str] = None) -> int:
         chk.notes.append('probe %s: %s' % (FLOAT_RANGE, probe_detail))
         if float_quirk and chk.is_known(FLOAT_RANGE):
             chk.report_known(FLOAT_RANGE, probe_detail[:160])
+    clash_repro, clash_detail = c05_probe.probe_macro_clash(core.REPO, core.scratch('c05clash-'))
+    chk.notes.append('probe %s: %s' % (MACRO_CLASH, clash_detail))
+    if clash_repro and chk.is_known(MACRO_CLASH):
+        chk.report_known(MACRO_CLASH, clash_detail[:120])
     rounds = 1 if chk.tier == 'quick' else 6
     n_types = 14 if chk.tier == 'quick' else 34
     stats: typing.Dict[str, typing.Any] = {'types': 0, 'builds': [], 'meta_values_compared': 0, 'model_values_vs_pydsdl': 0, 'ser_requests': 0,
@@ -939,6 +946,23 @@ def main(chk: core.Check, replay: typing.Optional[str] = None) -> int:
             if not okp:
                 failures.append({'kind': 'probe-build', 'label': lab, 'log': res_p, 'files': spec['files']})
                 continue
+            if tgt.name == 'cpp':
+                msf = kv(m5.run(['svcflags'])[0]) if ok5 else {}
+                for sid in c05_probe.services(db):
+                    got_s = res_p.get('svc:' + sid, {})
+                    want_s = {'svc': '1', 'issvc': '1', 'req': '0', 'rsp': '0', 'reqalias': '1', 'rspalias': '1'}
+                    evaluations += 1
+                    validated += len(want_s)
+                    stats['probe_values_compared'] = stats.get('probe_values_compared', 0) + len(want_s)
+                    bad_s = [{'key': k, 'got': got_s.get(k), 'pydsdl': v, 'model': msf.get(k), 'impl_wrong': True} for k, v in want_s.items()
+                             if got_s.get(k) != v]
+                    bad_m = [{'key': k, 'got': got_s.get(k), 'pydsdl': want_s[k], 'model': v, 'impl_wrong': False} for k, v in msf.items()
+                             if k in want_s and v != want_s[k]]
+                    if (bad_s or bad_m) and not any(f['kind'] in ('probe', 'model-vs-impl') and f.get('tid') == sid for f in failures):
+                        stid = next(t for t in tids if db.comp(t).get('service_id') == sid)
+                        failures.append({'_nfiles': len(needed_files(prep, stid)), 'kind': 'probe' if bad_s else 'model-vs-impl', 'label': lab,
+                                         'target': 'cpp', 'options': tgt.options, 'tid': sid, 'request': 'probe service ' + sid,
+                                         'problems': bad_s or bad_m, 'got': got_s, 'files': needed_files(prep, stid)})
             freqs = []
             for tid in tids:
                 pe = pydsdl_expected(db.comp(tid))['port_id']
@@ -970,6 +994,41 @@ def main(chk: core.Check, replay: typing.Optional[str] = None) -> int:
                     failures.append({'_nfiles': nf, 'kind': 'probe', 'label': lab, 'target': tgt.name, 'options': tgt.options, 'tid': tid,
                                      'request': 'probe ' + tid, 'problems': wrong, 'got': res_p.get(tid), 'files': needed_files(prep, tid),
                                      'dsdl_of_failing_type': prep.spec['files'].get(db.comp(tid)['source'], '')})
+
+        # Python service classes (py/templates/ServiceType.j2): _FIXED_PORT_ID_ read from the imported generated modules
+        for lab, tgt in [(lab, tgt) for lab, tgt in prep.targets if tgt.name == 'py']:
+            okp, res_s = c05_probe.probe_py_services(tgt, db)
+            if not okp:
+                failures.append({'kind': 'probe-build', 'label': lab, 'log': res_s, 'files': spec['files']})
+                continue
+            for sid, parts in c05_probe.services(db).items():
+                want_p = port_of_source(parts['Request']['source'])
+                w = 'none' if want_p is None else str(want_p)
+                mp = m5.run(['svcport %s' % w])[0].split()[-1] if ok5 else None
+                got_s = res_s.get(sid, {})
+                evaluations += 1
+                validated += 3
+                probs = [{'key': k, 'got': got_s.get(k), 'pydsdl': v, 'model': mp if k == 'port' else None, 'impl_wrong': True}
+                         for k, v in (('port', w), ('has_req', '1'), ('has_rsp', '1')) if got_s.get(k) != v]
+                if mp is not None and mp != w and not probs:
+                    failures.append({'kind': 'model-vs-impl', 'label': lab, 'tid': sid, 'problems': [{'key': 'port', 'model': mp, 'pydsdl': w}],
+                                     'files': needed_files(prep, parts['Request']['id'])})
+                if probs and not any(f['kind'] == 'probe' and f['label'] == lab for f in failures):
+                    failures.append({'_nfiles': 1, 'kind': 'probe', 'label': lab, 'target': 'py', 'options': tgt.options, 'tid': sid,
+                                     'request': 'probe service ' + sid, 'problems': probs, 'got': got_s,
+                                     'files': needed_files(prep, parts['Request']['id'])})
+        # the macro names of every generated type are pairwise distinct (premise of c05_c_header_effective_partial), per the model
+        if ok5:
+            dreqs = []
+            for tid in tids:
+                cc = db.comp(tid)
+                cn = ','.join(k['name'] for k in cc['constants']) or '-'
+                fn = ','.join(f['name'] for f in cc['fields'] if f['type']['k'] in ('farr', 'varr')) or '-'
+                dreqs.append('distinct %s %s' % (cn, fn))
+            for tid, r in zip(tids, m5.run(dreqs)):
+                evaluations += 1
+                if r != 'ok 1' and not any(f['kind'] == 'macro-names-not-distinct' for f in failures):
+                    failures.append({'kind': 'macro-names-not-distinct', 'tid': tid, 'model': r, 'files': needed_files(prep, tid)})
 
         # ---- B. capacities 0..max+1 on C and C++ ----
         ser_cases = []
@@ -1101,6 +1160,11 @@ def main(chk: core.Check, replay: typing.Optional[str] = None) -> int:
 
     # ---- verdict ----
     reported = False
+    if clash_repro and not chk.is_known(MACRO_CLASH):
+        chk.violation({'what': 'a DSDL constant named like a metadata macro silently replaces the exported C metadata of its type',
+                       'files': c05_probe.CLASH_FILES, 'target': 'c', 'options': {}, 'request': 'macro-clash', 'got': clash_detail,
+                       'expected': 'ext=4 buf=4 rc=0', 'broken': broken}, found_input=True)
+        reported = True
     if float_quirk and not chk.is_known(FLOAT_RANGE):
         chk.violation({'what': 'a float64 constant whose rational has a denominator beyond the range of double is exported with a wrong '
                                'value (clang) or rejected by the compiler (gcc -Werror)', 'files': WITNESS_FILES, 'target': 'c',
@@ -1141,6 +1205,8 @@ def main(chk: core.Check, replay: typing.Optional[str] = None) -> int:
                            'model-vs-pydsdl': 'the C05 model (translated filters + template scan) disagrees with the DSDL definition',
                            'spec-vs-pydsdl-capacity': 'ser_spec disagrees with ceil(max_bits/8)',
                            'model-capcheck': 'the scanned capacity check disagrees with ceil(max_bits/8)',
+                           'macro-names-not-distinct': 'two macros of a generated C header share a name (c_macros_distinct is false): the exported '
+                                                       'values of that type are not the ones the model computes',
                            'model-vs-impl': 'the C05 model disagrees with the generated code although the code agrees with pydsdl '
                                             '(model or template scan out of date)',
                            'translator-selftest': 'a T2-translated function disagrees with the Python original (translator defect or '
